@@ -11,11 +11,17 @@ Bounded exhaustive enumeration (drivers E1 + E2) on the real lena.structures cod
     attribute is unchanged, sum(bins) + n_out_of_range == total weight (Fractions);
     the same through the Histogram element with bare data and with (data, context) values;
   * fill sequences up to length 3 (events = coordinate x weight) on 1-, 2- and 3-dimensional
-    histograms, judged after every fill; and value sequences through the Histogram element.
+    histograms, judged after every fill; and value sequences through the Histogram element;
+  * the numeric-type axis (mc/ref/c06_types.py): the same laws for coordinates that are numbers but
+    neither int nor float objects - Fraction (on the edges, between an edge and the float below it,
+    a third into every bin, beyond the float range), huge int, bool, int and float subclasses,
+    Decimal (integer edges only) - for every edge array, for multidimensional points with such
+    items, with Fraction and Decimal weights, and in fill sequences that mix the kinds.
 """
 import copy
 import itertools
 import math
+from decimal import Decimal
 from fractions import Fraction
 
 import lena.core
@@ -24,6 +30,7 @@ from lena.structures import histogram, Histogram, get_bin_on_value_1d, get_bin_o
 
 from mc.core import Result, result_violations
 from mc.ref import c06c12_ref as R
+from mc.ref import c06_types as T
 
 ID = "C06"
 LEVEL = "exploration"
@@ -33,7 +40,15 @@ RULE = ("every strictly increasing sub-sequence (2..6 edges quick, 2..9 thorough
         "is executed for every coordinate of the pool (numbers of the pool, their float neighbours, "
         "midpoints, far outside, +-inf), single fills for every (array, coordinate, weight, initial "
         "state), fill sequences up to length 3 for every sequence of (coordinate, weight) events of "
-        "the listed 1-3 dimensional histograms. An index case is non-trivial when the array has at "
+        "the listed 1-3 dimensional histograms. Numeric-type axis: for every edge array every typed "
+        "coordinate of mc/ref/c06_types.typed_coordinates (Fraction on every edge, half-way to the float "
+        "below every edge, a third into every bin, outside, +-10**400/3; int +-10**400; True, False; an "
+        "int subclass on every int edge, a float subclass on every edge; for all-int arrays Decimal on "
+        "every edge, 1e-9 below it, mid-bin, outside, +-1e400, +-Infinity) runs the index law, a "
+        "structure fill of weight 1 (zero state) and of weight Fraction(-1, 3) (index-coded state) and "
+        "both element drivers; every product of the short typed per-axis lists is a multidimensional "
+        "point (tuple and list alternate) filled with weights 1, Fraction(-1, 3), Decimal('0.1'); three "
+        "sequence histograms mix the kinds of coordinates and weights. An index case is non-trivial when the array has at "
         "least two bins and the coordinate lies inside [first edge, last edge); a fill case when at "
         "least one weight lands in a cell of a histogram with at least two cells. Cases are distinct "
         "by construction (the enumeration never repeats an (array, coordinate, weight, state, driver) "
@@ -43,11 +58,19 @@ ASSUMPTIONS = [
     "does not overflow); 1-dimensional histograms use a flat edge list as lena documents",
     "coordinates are finite numbers or +-inf (NaN is outside the alphabet); multidimensional "
     "coordinates are tuples or lists of the histogram's dimension",
+    "a number is any object of a Python real-number type that can be compared with and subtracted "
+    "from the edges: int, bool, float, their subclasses, fractions.Fraction with any edges, "
+    "decimal.Decimal with all-integer edges only (Python defines no Decimal-float arithmetic, so "
+    "Decimal coordinates on float edges are outside the alphabet); complex and user-defined number "
+    "classes are not enumerated; edges themselves stay ints and floats as the quantifier says",
+    "weights of the numeric-type axis are Fraction(-1, 3), Fraction(1, 3), Decimal('0.1'), "
+    "Decimal('0.5') (never mixed with float contents, with which Decimal cannot be added); "
+    "conservation for them is judged exactly with Fractions",
     "weights are 1, 2, 0.5, -1 (dyadic, so that conservation is exact); the Histogram element fills "
     "with weight 1 only (it has no weight argument)",
     "fill sequences have length <= 3; 12-edge arrays are all sub-sequences of length >= 10 of six pools",
 ]
-NONTRIVIAL_FLOOR = {"quick": 200000, "thorough": 500000}
+NONTRIVIAL_FLOOR = {"quick": 250000, "thorough": 600000}
 BUDGET_S = {"quick": 240, "thorough": 1500}
 
 WEIGHTS = [1, 2, 0.5, -1]
@@ -58,9 +81,12 @@ def describe(tier):
     n = len(R.edge_arrays(tier))
     return ("%d distinct 1-d edge arrays from %d pools of 9 numbers (sub-sequences of length 2..%d) "
             "and %d pools of 12 (length 10..12 quick, 6..12 thorough); about 40 coordinates each; weights %r; two initial "
-            "states; %d multi-dimensional configurations; fill sequences of length <= 3"
+            "states; %d multi-dimensional configurations; fill sequences of length <= 3; numeric-type "
+            "axis: per edge array 4 typed coordinates per edge plus 7 (8 per edge plus 12 for integer "
+            "arrays) of the kinds %s, typed points on every multi-dimensional configuration, "
+            "typed weights %r, 3 mixed-kind sequence histograms"
             % (n, len(R.POOLS9), 9 if tier == "thorough" else 6, len(R.POOLS12), WEIGHTS,
-               len(_md_configs(tier))))
+               len(_md_configs(tier)), "/".join(T.KINDS), [str(w) for w in T.TYPED_WEIGHTS]))
 
 
 # ---- configurations ---------------------------------------------------------------------------------
@@ -79,6 +105,17 @@ def _seq_configs(tier):
         ("2d-2x2", [[0, 1, 2], [0, 1, 2]], False, [1, -1]),
         ("2d-1x3", [[0.5, 1e3], [-2, -1, 0, 1e-9]], False, [1, 2]),
         ("3d-1x2x2", [[0, 1], [0, 1, 2], [0.0, 0.5, 1.0]], False, [1, -1]),
+    ]
+    # histories that mix the numeric kinds of coordinates and weights (per-axis lists given here)
+    F, D = Fraction, Decimal
+    cfgs += [
+        ("1d-int-3bins-typed", [0, 1, 2, 3],
+         [[F(-1, 3), F(0), F(1, 2), F(3) - F(1, 2 ** 80), D("1.5"), D("3"), True, T.FloatSub(2.0),
+           T.IntSub(1), 2.5]], [1, F(1, 3)]),
+        ("1d-float-typed", [0.1, 0.5, 1.0, 4.0],
+         [[F(1, 10), F(1, 2), F(7, 2), F(4), False, True, T.FloatSub(0.5), 0.75]], [1, D("0.5")]),
+        ("2d-2x2-typed", [[0, 1, 2], [0.0, 0.5, 1.0]],
+         [[F(1, 2), F(1), D("1.5"), 2], [F(-1, 7), F(1, 2), T.FloatSub(0.0), 0.75]], [1]),
     ]
     if tier == "thorough":
         cfgs += [
@@ -113,9 +150,12 @@ def _md_configs(tier):
 def shards(tier):
     out = [{"kind": "index", "chunk": k} for k in range(N_ARRAY_SHARDS)]
     out += [{"kind": "fill1", "chunk": k} for k in range(N_ARRAY_SHARDS)]
+    out += [{"kind": "typed", "chunk": k} for k in range(N_ARRAY_SHARDS)]
     for i, _cfg in enumerate(_md_configs(tier)):
         for r in range(4):
             out.append({"kind": "md", "cfg": i, "part": r, "of": 4})
+    for i, _cfg in enumerate(_md_configs(tier)):
+        out.append({"kind": "md-typed", "cfg": i})
     for i, cfg in enumerate(_seq_configs(tier)):
         for r in range(6):
             out.append({"kind": "seq", "cfg": i, "part": r, "of": 6})
@@ -123,6 +163,20 @@ def shards(tier):
 
 
 # ---- the index law ------------------------------------------------------------------------------------
+_PLAIN = (int, float)
+
+
+def _with_kind(cause, coord, weight=1):
+    """Causes of cases from the numeric-type axis carry the kinds of the numbers; causes of plain
+    int/float cases stay as they always were."""
+    items = coord if isinstance(coord, (list, tuple)) else (coord,)
+    if any(type(c) not in _PLAIN for c in items):
+        cause["kind"] = T.kinds_of(coord)
+    if type(weight) not in _PLAIN:
+        cause["weight_kind"] = T.kind_of(weight)
+    return cause
+
+
 def check_index(res, edges, x):
     ref = R.ref_index(edges, x)
     try:
@@ -137,9 +191,10 @@ def check_index(res, edges, x):
             diff = max(-2, min(2, got - ref)) if got != ref else "get_bin_on_value-differs"
         else:
             diff = got
-        res.violation({"law": "bin-index-1d", "edges": R.enc(edges), "x": R.enc(x)},
+        res.violation({"law": "bin-index-1d", "edges": T.enc(edges), "x": T.enc(x)},
                       {"get_bin_on_value_1d": got, "get_bin_on_value": got_md}, ref,
-                      {"law": "bin-index-1d", "position": R.position(edges, x), "diff": diff})
+                      _with_kind({"law": "bin-index-1d", "position": R.position(edges, x),
+                                  "diff": diff}, x))
 
 
 def check_index_md(res, edges, coord):
@@ -152,11 +207,13 @@ def check_index_md(res, edges, coord):
     inside = all(0 <= i < len(a) - 1 for i, a in zip(ref, axes))
     res.case(nontrivial=inside, outcome=("md", tuple(ref)))
     if got != ref:
-        res.violation({"law": "bin-index-md", "edges": R.enc(edges), "x": R.enc(list(coord)),
+        res.violation({"law": "bin-index-md", "edges": T.enc(edges), "x": T.enc(list(coord)),
                        "as_list": isinstance(coord, list)},
                       got, ref,
-                      {"law": "bin-index-md", "dim": len(axes),
-                       "position": "/".join(sorted(set(R.position(a, c) for a, c in zip(axes, coord))))})
+                      _with_kind({"law": "bin-index-md", "dim": len(axes),
+                                  "position": "/".join(sorted(set(R.position(a, c)
+                                                                  for a, c in zip(axes, coord))))},
+                                 coord))
 
 
 # ---- fills ------------------------------------------------------------------------------------------
@@ -196,19 +253,23 @@ def _positions(axes, coord):
     return "/".join(sorted(set(R.position(a, c) for a, c in zip(axes, coord))))
 
 
+def _enc_events(events):
+    return [[T.enc(list(c)) if isinstance(c, (list, tuple)) else T.enc(c), T.enc(w),
+             "tuple" if isinstance(c, tuple) else ""] for c, w in events]
+
+
 def judge_fill(res, edges, bins0, n_out0, events, via="structure"):
     """Build a fresh histogram (or Histogram element), apply the events one by one and compare
     with the reference model after every fill. events: list of (coordinate, weight).
     Returns True when some weight landed inside a cell."""
     def case():
-        return {"law": "fill", "via": via, "edges": R.enc(edges),
-                "bins": R.enc(bins0) if bins0 is not None else None, "n_out": n_out0,
-                "events": [[R.enc(list(c)) if isinstance(c, (list, tuple)) else R.enc(c), w,
-                            "tuple" if isinstance(c, tuple) else ""] for c, w in events]}
+        return {"law": "fill", "via": via, "edges": T.enc(edges),
+                "bins": T.enc(bins0) if bins0 is not None else None, "n_out": n_out0,
+                "events": _enc_events(events)}
 
-    def cause(what, coord):
-        return {"law": "fill", "via": via, "dim": len(model.axes), "what": what,
-                "position": _positions(model.axes, coord)}
+    def cause(what, coord, w=1):
+        return _with_kind({"law": "fill", "via": via, "dim": len(model.axes), "what": what,
+                           "position": _positions(model.axes, coord)}, coord, w)
 
     model = R.ModelHist(edges, bins0, n_out0)
     landed = False
@@ -248,8 +309,8 @@ def judge_fill(res, edges, bins0, n_out0, events, via="structure"):
                 h = list(el.compute())[0][0]
         except Exception as ex:
             res.violation(case(), "fill %d raised %s" % (step, type(ex).__name__),
-                          {"bins": model.bins, "n_out_of_range": model.n_out},
-                          cause("exception:" + type(ex).__name__, coord))
+                          {"bins": T.enc(model.bins), "n_out_of_range": T.enc(model.n_out)},
+                          cause("exception:" + type(ex).__name__, coord, w))
             return landed
         what = None
         if h.bins != model.bins:
@@ -270,11 +331,11 @@ def judge_fill(res, edges, bins0, n_out0, events, via="structure"):
                 if total != model.total:
                     what = "conservation"
         if what:
-            res.violation(case(), {"step": step, "bins": R.enc(h.bins),
-                                   "n_out_of_range": R.enc(h.n_out_of_range)},
-                          {"cell": list(idx), "inside": inside, "bins": R.enc(model.bins),
-                           "n_out_of_range": R.enc(model.n_out)},
-                          cause(what, coord))
+            res.violation(case(), {"step": step, "bins": T.enc(h.bins),
+                                   "n_out_of_range": T.enc(h.n_out_of_range)},
+                          {"cell": list(idx), "inside": inside, "bins": T.enc(model.bins),
+                           "n_out_of_range": T.enc(model.n_out)},
+                          cause(what, coord, w))
             return landed
     res.outcome((R.flat(model.bins), model.n_out))
     return landed
@@ -286,7 +347,7 @@ def run_index(res, tier, chunk):
     for name, edges in arrays[chunk::N_ARRAY_SHARDS]:
         for x in R.coordinates(edges, R.pool_of(name)):
             check_index(res, edges, x)
-            last = {"law": "bin-index-1d", "edges": R.enc(edges), "x": R.enc(x)}
+            last = {"law": "bin-index-1d", "edges": T.enc(edges), "x": T.enc(x)}
         res.count("edge_arrays_index")
         res.maximum("max_edges", len(edges))
     if last:
@@ -311,8 +372,56 @@ def run_fill1(res, tier, chunk):
                     landed = judge_fill(res, edges, bins0, 0, [(x, 1)], via=via)
                     res.case(nontrivial=landed and ncells >= 2)
         res.count("edge_arrays_fill")
-        last = {"law": "fill", "via": "structure", "edges": R.enc(edges), "bins": None, "n_out": 0,
-                "events": [[R.enc(coords[len(coords) // 2]), 1, ""]]}
+        last = {"law": "fill", "via": "structure", "edges": T.enc(edges), "bins": None, "n_out": 0,
+                "events": [[T.enc(coords[len(coords) // 2]), 1, ""]]}
+    if last:
+        res.sample(last, 1)
+
+
+def run_typed(res, tier, chunk):
+    """The numeric-type axis: every edge array x every typed coordinate (mc/ref/c06_types.py):
+    the index law, a fill of weight 1 into the all-zero state, a fill of a Fraction weight into the
+    index-coded state, and the Histogram element with bare data and with (data, context).
+    (Decimal weights are combined with every typed point in run_md_typed and in the sequences.)"""
+    arrays = R.edge_arrays(tier)
+    last = None
+    for name, edges in arrays[chunk::N_ARRAY_SHARDS]:
+        ncells = len(edges) - 1
+        coded = R.coded_bins(edges)
+        for kind, x in T.typed_coordinates(edges):
+            check_index(res, edges, x)
+            res.count("typed_index_" + kind)
+            for bins0, n0, w, via in ((None, 0, 1, "structure"), (coded, 7, T.TYPED_WEIGHTS[0], "structure"),
+                                      (coded, 0, 1, "element"), (None, 0, 1, "element-ctx")):
+                landed = judge_fill(res, edges, bins0, n0, [(x, w)], via=via)
+                res.case(nontrivial=landed and ncells >= 2)
+            last = {"law": "fill", "via": "structure", "edges": T.enc(edges), "bins": None,
+                    "n_out": 0, "events": _enc_events([(x, T.TYPED_WEIGHTS[0])])}
+        res.count("edge_arrays_typed")
+    if last:
+        res.sample(last, 1)
+
+
+def run_md_typed(res, tier, p):
+    """Multidimensional points whose items are of the typed kinds (every product of the short
+    per-axis lists), as tuples and as lists."""
+    name, edges = _md_configs(tier)[p["cfg"]]
+    axes = R.unify(edges)
+    per_axis = [T.typed_axis_coordinates(a) for a in axes]
+    ncells = len(R.cells_in_order(edges))
+    coded = R.coded_bins(edges)
+    last = None
+    for k, coord in enumerate(itertools.product(*per_axis)):
+        c = list(coord) if k % 2 else coord
+        check_index_md(res, edges, c)
+        for bins0, n0, w, via in ((None, 0, 1, "structure"), (coded, 3, T.TYPED_WEIGHTS[0], "structure"),
+                                  (None, 0, T.TYPED_WEIGHTS[1], "structure"),
+                                  (coded, 0, 1, "element-ctx")):
+            landed = judge_fill(res, edges, bins0, n0, [(c, w)], via=via)
+            res.case(nontrivial=landed and ncells >= 2)
+        res.count("typed_points_md")
+        last = {"law": "fill", "via": "structure", "edges": T.enc(edges), "bins": None, "n_out": 0,
+                "events": _enc_events([(c, 1)])}
     if last:
         res.sample(last, 1)
 
@@ -339,8 +448,8 @@ def run_md(res, tier, p):
         for via in ("element", "element-ctx"):
             landed = judge_fill(res, edges, coded, 0, [(c, 1)], via=via)
             res.case(nontrivial=landed and ncells >= 2)
-        last = {"law": "fill", "via": "structure", "edges": R.enc(edges), "bins": None, "n_out": 0,
-                "events": [[R.enc(list(c)), 1, "" if as_list else "tuple"]]}
+        last = {"law": "fill", "via": "structure", "edges": T.enc(edges), "bins": None, "n_out": 0,
+                "events": [[T.enc(list(c)), 1, "" if as_list else "tuple"]]}
     res.maximum("max_dim", len(axes))
     if last:
         res.sample(last, 1)
@@ -349,7 +458,10 @@ def run_md(res, tier, p):
 def _events(cfg):
     name, edges, rich, weights = cfg
     axes = R.unify(edges)
-    per_axis = [R.axis_coordinates(a, rich=rich) for a in axes]
+    if isinstance(rich, list):
+        per_axis = rich
+    else:
+        per_axis = [R.axis_coordinates(a, rich=rich) for a in axes]
     if len(axes) == 1:
         coords = per_axis[0]
     else:
@@ -396,10 +508,9 @@ def run_seq(res, tier, p):
                     res.case(nontrivial=landed and ncells >= 2)
                     res.count("element_sequences")
     if last:
-        res.sample({"law": "fill", "via": "structure", "edges": R.enc(edges), "bins": None,
+        res.sample({"law": "fill", "via": "structure", "edges": T.enc(edges), "bins": None,
                     "n_out": 0,
-                    "events": [[R.enc(list(c)) if isinstance(c, (list, tuple)) else R.enc(c), w,
-                                "tuple" if isinstance(c, tuple) else ""] for c, w in last]}, 1)
+                    "events": _enc_events(last)}, 1)
 
 
 def run_shard(p, tier):
@@ -408,8 +519,12 @@ def run_shard(p, tier):
         run_index(res, tier, p["chunk"])
     elif p["kind"] == "fill1":
         run_fill1(res, tier, p["chunk"])
+    elif p["kind"] == "typed":
+        run_typed(res, tier, p["chunk"])
     elif p["kind"] == "md":
         run_md(res, tier, p)
+    elif p["kind"] == "md-typed":
+        run_md_typed(res, tier, p)
     elif p["kind"] == "seq":
         run_seq(res, tier, p)
     return res
@@ -418,20 +533,20 @@ def run_shard(p, tier):
 def replay(case):
     res = Result()
     law = case.get("law")
-    edges = R.dec(case["edges"])
+    edges = T.dec(case["edges"])
     if law == "bin-index-1d":
-        check_index(res, edges, R.dec(case["x"]))
+        check_index(res, edges, T.dec(case["x"]))
     elif law == "bin-index-md":
-        x = R.dec(case["x"])
+        x = T.dec(case["x"])
         check_index_md(res, edges, x if case.get("as_list") else tuple(x))
     elif law == "fill":
         events = []
         for ev in case["events"]:
-            c = R.dec(ev[0])
+            c = T.dec(ev[0])
             if isinstance(c, list) and len(ev) > 2 and ev[2] == "tuple":
                 c = tuple(c)
-            events.append((c, ev[1]))
-        bins0 = R.dec(case["bins"]) if case.get("bins") is not None else None
+            events.append((c, T.dec(ev[1])))
+        bins0 = T.dec(case["bins"]) if case.get("bins") is not None else None
         judge_fill(res, edges, bins0, case.get("n_out", 0), events, via=case.get("via", "structure"))
     return result_violations(res)
 
@@ -441,10 +556,15 @@ LEVEL_TEXT = ("bounded exhaustive exploration: every strictly increasing sub-seq
               "negative, integers beyond 2**53; up to 12 edges) is executed on the real "
               "get_bin_on_value_1d / histogram.fill / Histogram.fill for every coordinate of the pool "
               "(edges, float neighbours, midpoints, far outside, +-inf), every weight and two initial "
-              "states, plus every fill sequence up to length 3 on 1-3 dimensional histograms, each "
-              "judged against a count-the-edges reference model")
-LEVEL_NOTE = ("holds for the enumerated pools only; NaN coordinates, edge spans that overflow and "
-              "non-numeric bin contents are outside the alphabet; sequences longer than 3 fills are "
-              "not explored")
-TECHNIQUE = ("exhaustive enumeration of edge arrays x coordinates x weights x short fill sequences on "
-             "the real code against a count-of-edges reference model")
+              "states, plus every fill sequence up to length 3 on 1-3 dimensional histograms, and - "
+              "for every edge array again - for coordinates of every other real-number type (Fraction "
+              "on and between floats, huge int, bool, int/float subclasses, Decimal on integer edges) "
+              "with int, Fraction and Decimal weights, each judged against a count-the-edges "
+              "reference model")
+LEVEL_NOTE = ("holds for the enumerated pools only; NaN coordinates, edge spans that overflow, "
+              "non-numeric bin contents, Decimal coordinates on float edges, edges that are not ints "
+              "or floats and user-defined number classes are outside the alphabet; sequences longer "
+              "than 3 fills are not explored")
+TECHNIQUE = ("exhaustive enumeration of edge arrays x coordinates (floats and every other real-number "
+             "type) x weights x short fill sequences on the real code against a count-of-edges "
+             "reference model")
